@@ -53,9 +53,13 @@ class Hist:
         if self.fs is not None:
             self.fs.mark('begin', len(self.m.txns))
 
+    save_index_each = False              # crash harnesses: an index file is saved after every commit
+
     def _r(self):
         if self.fs is not None:
             self.fs.mark('returned', len(self.m.txns))
+            if self.save_index_each:
+                self.s._save_index()
 
     # -- commits ------------------------------------------------------------
     def commit(self, recs, user=b'', desc=b'', ext=None):
@@ -280,8 +284,10 @@ MAPPING_TEMPLATES = {'T1': T1, 'T2': T2, 'T3': T3}
 
 def build_file(name, env=None, marks=False, **kw):
     env = env or Env()
+    save_index_each = kw.pop('save_index_each', False)
     s = env.filestorage(**kw)
     h = Hist(s, fs=env.fs if marks else None)
+    h.save_index_each = save_index_each
     FILE_TEMPLATES[name](h)
     return env, s, h
 
